@@ -1115,6 +1115,9 @@ def tree_units(prop, tier):
         for c in (("", "<p>", "<table>", "<template>") if q else ("", "<div>", "<p>", "<table>", "<table><tr><td>", "<template>")):
             add("%r two elements, a block, end tag (adoption agency: reparent_children, remove_from_parent)" % c, [c, "<", N1, "><", N1, "><p>x</", N1, ">y"], R)
             add("%r formatting run" % c, [c, "<", N1, "><", N1, ">x<p>y</", N1, ">z</b>w"], R)
+        add("selected option mirrored into selectedcontent (symbolic option attribute)", ["<select><selectedcontent>", W1, "</selectedcontent><option ", ("name", 8), ">", W1, "<", N1, ">y</", N1, ">"], R)
+        add("selectedcontent with old children, select attribute symbolic (multiple)", ["<select ", ("name", 8), "><selectedcontent>o<u>z</u></selectedcontent><option selected>a<b>c<i>d</i></b>"], R)
+        add("option in optgroup / second option", ["<select><selectedcontent></selectedcontent><optgroup><option selected>", W1, "</optgroup><option selected><", N1, ">q"], R)
         add("attribute merging on html and body", ["<html ", N1, "=1><html ", N1, "=2 ", N1, "=3><body ", N1, "=4><body ", N1, "=5 ", N1, "=6>"], R)
         add("attribute merging with duplicate-looking names in one tag", ["<body a=1><body ", N1, "=2 ", N1, "=3 ", N1, "=4>"], R)
         add("table text: whitespace and non-whitespace runs", ["<table>", W2, "<tr>", W2, "<td>", W1, "</table>", W1], R)
